@@ -288,9 +288,7 @@ impl DcpsDomainParticipant {
         };
 
         Ok(data_writer
-            .registered_instance_info
-            .iter()
-            .any(|x| x.instance_handle == instance_handle)
+            .is_registered(&instance_handle)
             .then_some(instance_handle))
     }
 
